@@ -9,7 +9,7 @@ TB = ("Trusted: Coq 8.16.1 kernel + vm_compute (no native_compute); extraction w
 
 CLAIMED = {
  "C16": dict(
-   text="17 theorems in coq/Properties/C16.v: time, date and duration literals accepted are EXACTLY the specification's (iff, via sweeps over all 132,000 time-shaped strings and structural inversion), text round trips (all 8,640 times; all dates; all durations within int64), Plus arithmetic for all integers (error outside the window or the integer range), range validity and length. Tied to the code by exhaustive request grids (all time strings, duration/date/plus/range grids incl. int64 boundaries) and a specification oracle.",
+   text="20 theorems in coq/Properties/C16.v: time, date and duration literals accepted are EXACTLY the specification's (iff, via sweeps over all 132,000 time-shaped strings and structural inversion), text round trips (all 8,640 times; all dates; all durations within int64), Plus arithmetic for all integers (error outside the window or the integer range), range validity and length, IsEqualTo = same (shift, hour, minute) and IsAfterOrEqual = the total order of the points in time. Tied to the code by exhaustive request grids (all time strings, duration/date/plus/range grids incl. int64 boundaries), pairs of time literals for the comparisons, and a specification oracle.",
    design="§4 C16", technique="Coq proof (lia + lifted finite sweep) over hand model; extracted-model-vs-Go differential correspondence",
    note=TB + "Axioms: none. Known finding K5 (NewDurationFromString panics beyond int64; pinned by a maintainers' test). K6 fixed."),
  "C14": dict(
@@ -109,7 +109,7 @@ CLAIMED = {
    design="§4 C10", technique="Coq proof (case analysis over error sites) over hand model; differential correspondence + rendering oracle",
    note=TB + 'Axioms: none. Model reflects fixes F3, F9.'),
  "C07": dict(
-   text='9 theorems in coq/Properties/C07.v: par_parse s n order = parse_text s for every text, n >= 1 and every arrival permutation (C07_parallel_eq_serial), any arrival multiset, chunks partition the text at rune starts never between CR and LF, any CRLF-respecting partition works, and the refuted witness for arbitrary partitions (the F11 defect). Tied to the code by texts x worker counts 1..len+2 x arrival orders forced through the add-only hook; the Go side compares parallel with serial (records, blocks, line indices, errors incl. messages).',
+   text='9 theorems in coq/Properties/C07.v: par_parse s n order = parse_text s for every text, n >= 1 and every arrival permutation (C07_parallel_eq_serial), any arrival multiset, chunks partition the text at rune starts never between CR and LF, any CRLF-respecting partition works, and the refuted witness for arbitrary partitions (the F11 defect). Tied to the code by texts x worker counts 1..len+2 x arrival orders forced through the add-only hook; the Go side compares parallel with serial (records, blocks, line indices, errors incl. messages); a second suite runs every worker count 1..NumCPU+2 of the real scheduler (no hook) on large generated files and compares with the serial parser.',
    design="§4 C07", technique="Coq proof (permutation invariance, loop invariant) over hand model; differential correspondence with forced schedules",
    note=TB + 'Axioms: none. Real goroutine scheduling and channel semantics are not modelled (results are stored by index). Model reflects fixes F1 and F11.'),
  "C12": dict(
